@@ -186,17 +186,22 @@ def parse_mir(text):
 def parse_source_types(srcs):
     """struct field lists and enum variant lists from the emitted source (declaration order = MIR field index)"""
     structs, enums = {}, {}
+    ambiguous = set()
     for rel, src in srcs.items():
         for m in re.finditer(r'pub struct (\w+)\s*\{(.*?)\}', src, re.S):
             fields = []
             for fm in re.finditer(r'pub (\w+)\s*:\s*([^,\n]+)', m.group(2)):
                 fields.append((fm.group(1), fm.group(2).strip()))
+            if m.group(1) in structs and structs[m.group(1)] != fields:
+                ambiguous.add(m.group(1))
             structs[m.group(1)] = fields
         for m in re.finditer(r'pub enum (\w+)\s*\{(.*?)\}', src, re.S):
             vs = []
             for vm in re.finditer(r'(\w+)\s*\(\s*([\w:]+)\s*\)', m.group(2)):
                 vs.append((vm.group(1), vm.group(2)))
             enums[m.group(1)] = vs
+    for a in ambiguous:
+        structs[a] = None
     return structs, enums
 
 
@@ -1108,6 +1113,8 @@ class RustFE:
         n = find(list(self.structs), packet.name)
         if n is None:
             raise MissingMember('struct for packet %s' % packet.name)
+        if self.structs[n] is None:
+            raise Unsupported('two emitted structs are named %s (different modules): not resolved by this front-end' % n)
         return n, self.structs[n]
 
     def to_lang(self, packet, msg):
